@@ -56,9 +56,9 @@ Fixpoint insert_kv (kv : str * hval) (l : dict) : dict :=
   end.
 Definition sort_kv (l : dict) : dict := fold_right insert_kv [] l.
 
-(* the value of the request id header is not compared (only its presence) *)
-Definition canon_kv (kv : str * hval) : str * hval :=
-  if str_eqb (fst kv) (capitalize reqid_set_key) then (fst kv, HGenId) else kv.
+(* a GENERATED request id is HGenId in the model (its value is not compared: the harness masks values of the
+   generated shape); an id supplied by the caller is an ordinary header value and is compared *)
+Definition canon_kv (kv : str * hval) : str * hval := kv.
 
 Definition sx_captured (c : captured) : sx :=
   SL [sx_str (q_url c); sx_str (q_method c);
